@@ -36,6 +36,7 @@ def _menu(P, raw):
         raw,                               # 10 arbitrary short string
         P + c + "/a.ics;v=2",              # 11 ';' parameter syntax on an existing name: a DIFFERENT, non-existent member
         P + c + "/a.ics?x=1",              # 12 query part: addresses a.ics itself
+        "//[",                             # 13 not a URL reference at all (urlsplit: 'Invalid IPv6 URL'): names nothing
     ]
 
 
@@ -71,19 +72,29 @@ def body_multiget(items, raw, c_b, dup):
         return (False, "no-multistatus")
     # what each requested href should yield
     decoded = []
+    malformed = []
     for h in hrefs:
-        d = Wd.read_href_element(_el(h))
+        try:
+            d = Wd.read_href_element(_el(h))
+        except ValueError:
+            # not a URL reference at all (urlsplit refuses '//['): answered not-found under the text as sent
+            d = h
+            malformed.append(h)
         if d not in decoded:
             decoded.append(d)
     want_ct = "text/vcard" if card else "text/calendar"
     expect = {}
     for d in decoded:
-        expect[d] = _expect(app, d, P, want_ct)
+        expect[d] = None if d in malformed else _expect(app, d, P, want_ct)
     answered = {}
     for st in r.statuses:
         if st.href in answered:
             return (False, "answered-twice")
         answered[st.href] = st
+        try:
+            mweb.emitted_href(st)  # the answer can be put on the wire
+        except Exception:
+            return (False, "unserialisable")
     if set(answered) != set(expect):
         return (False, "wrong-set")
     ok = True
@@ -155,7 +166,7 @@ def _expect(app, decoded_href, P, want_ct):
 
 def h_multiget(items: List[int], raw: str, c_b: bytes, dup: bool) -> bool:
     """
-    pre: len(items) <= ctx.b.nhref and all(0 <= i <= 12 for i in items) and len(raw) <= ctx.b.rlen and len(c_b) <= 2
+    pre: len(items) <= ctx.b.nhref and all(0 <= i <= 13 for i in items) and len(raw) <= ctx.b.rlen and len(c_b) <= 2
     post: _
     """
     return run(body_multiget, items, raw, c_b, dup)
@@ -175,7 +186,7 @@ def body_multiget_menu(pre, i1, dup):
     from xv.core import picks, untraced
     import urllib.parse
     import posixpath
-    pre, i1, dup = picks((pre, i1, dup), (len(PRE), 14, "bool"))
+    pre, i1, dup = picks((pre, i1, dup), (len(PRE), 15, "bool"))
     with untraced():
         prefix, card, wsgi = ctx.PART
         P = prefix.rstrip("/")
@@ -242,7 +253,10 @@ def body_multiget_menu(pre, i1, dup):
             for h in hrefs:
                 # reference reading of an href (RFC 3986): the path component, percent-decoded once - NOT the
                 # server's own read_href_element
-                d = urllib.parse.unquote(urllib.parse.urlsplit(h).path)
+                try:
+                    d = urllib.parse.unquote(urllib.parse.urlsplit(h).path)
+                except ValueError:
+                    d = h  # not a URL reference: answered (not-found) under the text as sent
                 if d not in decoded:
                     decoded.append(d)
             answered = {}
@@ -250,6 +264,10 @@ def body_multiget_menu(pre, i1, dup):
                 if st.href in answered:
                     return (False, "answered-twice")
                 answered[st.href] = st
+                try:
+                    mweb.emitted_href(st)
+                except Exception:
+                    return (False, "unserialisable")
             if set(answered) != set(decoded):
                 return (False, "wrong-set")
             for d in decoded:
@@ -277,7 +295,7 @@ def body_multiget_menu(pre, i1, dup):
 
 def h_multiget_menu(pre: int, i1: int, dup: bool) -> bool:
     """
-    pre: 0 <= pre < len(PRE) and 0 <= i1 < 14
+    pre: 0 <= pre < len(PRE) and 0 <= i1 < 15
     post: _
     """
     return run(body_multiget_menu, pre, i1, dup)
